@@ -472,6 +472,8 @@ func genC12bbc(o *Out, r *Rng, thorough bool) {
 		}
 		c12Rx(o, "multi", mtu, ts, c12Interleave(r, ls))
 	}
+
+	c12Pend(o, r, thorough)
 }
 
 func init() { register("C12bbc", genC12bbc) }
